@@ -770,6 +770,43 @@ def work_aliased(chunk):
     return acc
 
 
+# -- functions with a limited domain ---------------------------------------------------------------------
+# f is differentiable at x but only defined on part of R^n (log, sqrt): the largest default steps leave the domain
+# in one direction, so SOME rows of SOME entries are NaN.  Those entries must still be resolved from their valid rows,
+# next to entries whose rows are all valid.
+
+def work_partial_domain(chunk):
+    import numdifftools as nd
+    acc = fw.Acc()
+    for x0, method, order in chunk:
+        x = np.array([x0, 1.5])
+
+        def f(t):
+            return np.array([t[1] * np.log(t[0]), t[0] * t[1], t[0] * t[0] + np.sin(t[1])])
+
+        def g(t):
+            return t[1] * np.log(t[0]) + np.sqrt(t[0]) * t[1] * t[1]
+        J = np.array([[x[1] / x[0], math.log(x[0])], [x[1], x[0]], [2 * x[0], math.cos(x[1])]])
+        G = np.array([x[1] / x[0] + 0.5 / math.sqrt(x[0]) * x[1] ** 2, math.log(x[0]) + 2 * math.sqrt(x[0]) * x[1]])
+        for cls, fun, want in (('Jacobian', f, J), ('Gradient', g, G)):
+            status, val = call(lambda: getattr(nd, cls)(fun, method=method, order=order)(x))
+            case = ('partial-domain', x0, method, order, cls)
+            jc = dict(part='partial-domain', x0=x0, method=method, order=order, cls=cls)
+            allow = (1e-6 if method == 'central' else 1e-4) * (1.0 + np.abs(want))
+            prob = None
+            if status != 'ok':
+                prob = str(val)
+            else:
+                val = np.asarray(val)
+                if val.shape != want.shape or not np.all(np.abs(val - want) <= allow):
+                    prob = 'got %r, closed form %r' % (val.tolist(), want.tolist())
+            acc.case(case, nontrivial=True, cell='partial-domain/%s' % method, outcome=prob is None)
+            if prob:
+                acc.violation('C03:%s:envelope:%s:entry-with-some-invalid-rows' % (cls, method), jc,
+                              '%s(f, method=%r, order=%d)(%r), f involving log(x0): %s' % (cls, method, order, x.tolist(), prob), 2)
+    return acc
+
+
 def work_select(chunk, tier='quick'):
     acc = fw.Acc()
     nmax = 6 if tier == 'quick' else 8
@@ -817,6 +854,7 @@ def run(ctx):
     acc = ctx.pmap(work, items, chunk=1, tier=ctx.tier)
     acc.merge(ctx.pmap(work_aliased, [(k, me, o, c) for k in (8, 16) for me in ('central', 'forward', 'backward') for o in ORDERS
                                       for c in ('zero-entry', 'ordinary')], chunk=3))
+    acc.merge(ctx.pmap(work_partial_domain, [(x0, me, o) for x0 in (0.05, 0.3) for me in ('central', 'backward') for o in ORDERS], chunk=2))
     acc.merge(ctx.pmap(work_outputs, [(c, m, o) for c in ('Jacobian', 'Gradient') for m in METHODS for o in ORDERS], chunk=2))
     acc.merge(ctx.pmap(work_select, [(mname, p) for mname in SELECT_MAPS for p in ridge.POINT_KINDS], chunk=1, tier=ctx.tier))
     b = bounds(ctx.tier)
@@ -875,6 +913,10 @@ def run(ctx):
 
 
 def replay(case):
+    if case.get('part') == 'partial-domain':
+        a = work_partial_domain([(case['x0'], case['method'], int(case['order']))])
+        bad = [r['detail'] for k, (n, recs) in a.viol.items() for r in recs]
+        return not bad, '%r -> %s' % (case, bad or 'resolved')
     if case.get('part') == 'aliased':
         a = work_aliased([(case['k'], case['method'], int(case['order']), case['companion'])])
         bad = [r['detail'] for k, (n, recs) in a.viol.items() for r in recs]
